@@ -110,9 +110,14 @@ def main():
     if a.keep:
         d = os.path.join(VERIF, "seeded", a.seed_id)
         os.makedirs(d, exist_ok=True)
-        shutil.copy(a.patch, os.path.join(d, "patch.diff"))
-        shutil.copy(a.demo, os.path.join(d, "demo.py"))
+        if os.path.abspath(a.patch) != os.path.join(d, "patch.diff"):
+            shutil.copy(a.patch, os.path.join(d, "patch.diff"))
+        if os.path.abspath(a.demo) != os.path.join(d, "demo.py"):
+            shutil.copy(a.demo, os.path.join(d, "demo.py"))
         note = open(a.note).read() if a.note and os.path.exists(a.note) else ""
+        old_meta = os.path.join(d, "meta.json")
+        if not note and os.path.exists(old_meta):
+            note = json.load(open(old_meta)).get("note", "")
         meta = {
             "id": a.seed_id,
             "breaks_property": a.property,
